@@ -47,6 +47,10 @@ def run(tier):
             continue
         seen.add(t)
         bodies.append(("(" + zw.unparse(src, "top") + ")", t))
+        # input stacks whose values carry positions other than 0, sequences and strings among them (what a
+        # sub-expression context copies must come back with the position it had)
+        for extra in ('([[7], [8, 9]] elem)', '(["a", [1], 2] elem)', '([[7], [8]] elem (1, "b"))', '("xy" elem [3] swap)'):
+            bodies.append((extra, t))
     cmds, meta = [], []
     cached = {}
     def add(q, group, kind, fileq=None):
